@@ -85,6 +85,37 @@ type Cluster struct {
 	// Boot: CLUSTER NODES is auto-answered even when cfg.ScriptTopo (used during bootstrap)
 	Boot bool
 	free bool
+	// HoldTopo: CLUSTER NODES commands wait at the head of their connection's queue until ReleaseTopo (the
+	// reply then carries what the cluster publishes at that moment)
+	HoldTopo bool
+}
+
+// SetHoldTopo switches the holding of CLUSTER NODES answers on or off (off: held ones are answered).
+func (cl *Cluster) SetHoldTopo(h bool) {
+	cl.mu.Lock()
+	defer cl.mu.Unlock()
+	cl.HoldTopo = h
+	if !h {
+		for _, n := range cl.Nodes {
+			for _, nc := range n.Conns {
+				cl.autoLocked(nc, false)
+			}
+		}
+	}
+}
+
+// ReleaseTopo answers the CLUSTER NODES commands that are being held.
+func (cl *Cluster) ReleaseTopo() {
+	cl.mu.Lock()
+	defer cl.mu.Unlock()
+	old := cl.HoldTopo
+	cl.HoldTopo = false
+	for _, n := range cl.Nodes {
+		for _, nc := range n.Conns {
+			cl.autoLocked(nc, false)
+		}
+	}
+	cl.HoldTopo = old
 }
 
 func nodeID(i int) string { return fmt.Sprintf("%040x", i+1) }
@@ -574,6 +605,9 @@ func (cl *Cluster) processLocked(nc *NodeConn) {
 func (cl *Cluster) autoLocked(nc *NodeConn, late bool) {
 	for len(nc.Pending) > 0 && nc.Pending[0].Auto && !nc.Closed && !nc.PeerEOF {
 		pc := nc.Pending[0]
+		if cl.HoldTopo && pc.Name == "cluster" {
+			return
+		}
 		nc.Pending = nc.Pending[1:]
 		if pc.Name == "asking" {
 			ev := Event{Ev: "answerauto", N: nc.node.Name, Conn: nc.Id, K: "asking"}
